@@ -882,10 +882,12 @@ impl SessionContext {
             (true, false, Ok(_)) => self.return_empty_dataframe(),
             (false, true, Ok(_)) => {
                 Self::ensure_unique_column_names(input.schema())?;
-                self.deregister_table(name.clone())?;
                 let schema = Arc::clone(input.schema().inner());
                 let physical = DataFrame::new(self.state(), input);
 
+                // Evaluate the defining query FIRST: if it fails, the statement fails and
+                // the existing table must stay registered (a failed statement must not
+                // change the catalog).
                 let batches: Vec<_> = physical.collect_partitioned().await?;
                 let table = Arc::new(
                     // pass constraints and column defaults to the mem table.
@@ -894,6 +896,8 @@ impl SessionContext {
                         .with_column_defaults(column_defaults.into_iter().collect()),
                 );
 
+                // ... and swap only afterwards.
+                self.deregister_table(name.clone())?;
                 self.register_table(name.clone(), table)?;
                 self.return_empty_dataframe()
             }
